@@ -96,6 +96,17 @@ def gen_exchange(rng) -> dict:
                 ex["body"] = {"tag": 0, "embed": True}
                 del ex["split_embed"]
                 ex["split_head"] = rng.choice([0.5, 3.0])
+        elif r < 0.83 and ex["framing"] == "chunked":
+            # a chunked body that goes wrong after some complete chunks: a chunk-size line that is no number, on a connection the
+            # server keeps open, and -- later -- bytes that look like a complete response.  Reading fails (that is allowed); the
+            # connection must not serve anything else.
+            ex["chunks"] = [3]
+            ex["cut_body"] = 8 * rng.choice([1, 1, 2, 4])  # "3\r\nxxx\r\n" is 8 bytes: the cut falls between two chunks
+            ex["end"] = "keep"
+            ex["stray"] = "ZZ\r\n"
+            ex["stray_delay"] = 0.0
+            ex["stray2"] = FORGED
+            ex["stray2_delay"] = rng.choice([0.5, 3.0])
         if st == 103:
             # an interim response followed by the final one on the same connection
             ex["stray"] = FORGED
@@ -250,6 +261,14 @@ def run(sc: dict) -> Result:
             if not okc:
                 res.bad("cross_talk:foreign_bytes", f"{rid} {method} {path}: status {status}, {data[:60]!r} matches no answer generated for it ({[(c[0], c[1], c[2][:30]) for c in cands]})")
                 continue
+        # a connection on which an exchange was cut short (whatever the server does afterwards) never carries another request
+        for q in w.requests:
+            ua = w.sockets[q.sid].tags.get("unclean_after")
+            # (only if the client had received every byte of the cut exchange before it wrote again: where earlier unsolicited bytes
+            #  were taken for the answer the client never saw the cut response at all -- the "ambiguous" zone above)
+            if ua is not None and q.idx > ua and q.method != "CONNECT" and w.sockets[q.sid].tags.get("wrote_after_unclean_seen"):
+                res.bad("unclean_connection_reused", f"request {q.idx} ({q.method} {q.target}) was written on socket {q.sid}, whose exchange {ua} had been cut short by the server")
+                break
         if any(s_.tags.get("dirty_at_write") for s_ in w.sockets):
             res.probes["request_written_on_dirty_socket"] += 1
         sids = [q.sid for q in w.requests]
